@@ -18,9 +18,9 @@ PROD_S = 0x1000000
 T = 4
 
 MODES = ["none", "e", "d", "v", "V", "h", "e+d", "v+h", "cluster-en", "cluster-edv", "long-encode", "long-decode"]
-INS = ["absent", "file", "missing", "path123", "path300", "valid", "tampered", "empty", "directory", "devnull", "fifo", "name251", "wencdir"]
-OUTS = ["absent", "writable", "unwritable"]
-KEYS = ["absent", "right", "wrong", "len23", "nopad", "badsym", "len25", "onepad"]
+INS = ["absent", "file", "missing", "path123", "path300", "valid", "tampered", "empty", "directory", "devnull", "fifo", "name251", "wencdir", "wencexists"]
+OUTS = ["absent", "writable", "unwritable", "existing"]
+KEYS = ["absent", "right", "wrong", "len23", "nopad", "badsym", "len25", "onepad", "hibyte"]
 CMODES = ["absent", "0", "1", "2", "3", "4", "5", "-1", "256", "abc", "127"]
 HMODES = ["absent", "0", "1", "2", "3", "abc"]
 NS = ["absent", "n"]
@@ -86,6 +86,10 @@ def make_argv(vec, fx, rundir):
             src = os.path.join(rundir, "plainw.bin")
             open(src, "wb").write(fx.plain)
             os.makedirs(src + ".wenc", exist_ok=True)
+        elif inn == "wencexists":  # "<input>.wenc" already exists as a regular file that is longer than anything this run writes
+            src = os.path.join(rundir, "plainx.bin")
+            open(src, "wb").write(fx.plain)
+            open(src + ".wenc", "wb").write(bytes((i * 11 + 5) % 256 for i in range(5000)))
         elif inn == "directory":
             src = os.path.join(rundir, "a-directory")
             os.makedirs(src, exist_ok=True)
@@ -108,12 +112,14 @@ def make_argv(vec, fx, rundir):
         a += ["-i", src]
         info["in"] = src
     if out != "absent":
-        o = os.path.join(rundir, "out.bin") if out == "writable" else os.path.join(rundir, "no-such-dir", "out.bin")
+        o = os.path.join(rundir, "out.bin") if out in ("writable", "existing") else os.path.join(rundir, "no-such-dir", "out.bin")
+        if out == "existing":  # the output path already holds a longer file (an earlier result, somebody else's data)
+            open(o, "wb").write(bytes((i * 13 + 7) % 256 for i in range(5000)))
         a += ["-o", o]
         info["out"] = o
     if key != "absent":
         k = {"right": KEYTXT, "wrong": WRONG, "len23": KEYTXT[:23], "nopad": KEYTXT[:22] + "AA", "badsym": KEYTXT[:5] + "*" + KEYTXT[6:], "len25": KEYTXT + "A",
-             "onepad": KEYTXT[:22] + "A="}[key]
+             "onepad": KEYTXT[:22] + "A=", "hibyte": KEYTXT[:7] + "\udcff" + KEYTXT[8:]}[key]  # hibyte: the raw byte 0xFF (not a base64 symbol) in the key text
         a += ["-k", k]
         info["key"] = k
     if cm != "absent":
@@ -149,7 +155,7 @@ def well_formed(vec):
         return False
     if extra in ("unknown", "missingarg"):
         return False
-    if key in ("len23", "nopad", "badsym", "len25", "onepad"):
+    if key in ("len23", "nopad", "badsym", "len25", "onepad", "hibyte"):
         return False
     if out == "unwritable":
         return False
@@ -177,7 +183,7 @@ def must_fail(vec):
     mode, inn, out, key, cm, hm, noecho, extra = vec
     if extra in UNDOCUMENTED_EXTRAS and well_formed(vec):
         return False  # repeated options / stray arguments: acceptance is not documented either way
-    if mode in ("V", "h") and extra == "none" and key not in ("len23", "nopad", "badsym", "len25", "onepad") and out != "unwritable" and inn != "missing":
+    if mode in ("V", "h") and extra == "none" and key not in ("len23", "nopad", "badsym", "len25", "onepad", "hibyte") and out != "unwritable" and inn != "missing":
         return False
     if not well_formed(vec):
         # value classes whose acceptance the documentation leaves open are not in well_formed's reject list
@@ -201,7 +207,7 @@ def must_succeed(vec):
     if cm in ("-1", "256", "abc", "127", "5") or hm in ("3", "abc"):
         return False
     if m == "e":
-        return inn in ("file", "empty", "valid", "tampered") or (inn in ("name251", "wencdir") and out == "writable")
+        return inn in ("file", "empty", "valid", "tampered", "wencexists") or (inn in ("name251", "wencdir") and out in ("writable", "existing"))
     if m in ("d", "v"):
         return inn == "valid" and key == "right"
     return False
@@ -215,6 +221,9 @@ def run_vector(exe, reftool, fx, vec, idx, workroot):
         env = dict(os.environ)
         env["ASAN_OPTIONS"] = "detect_leaks=0:new_delete_type_mismatch=0:alloc_dealloc_mismatch=0:exitcode=77:abort_on_error=0:allocator_may_return_null=1"
         default_out = (info["in"] + ".wenc") if info["in"] else None
+        in_before = None
+        if info["in"] and os.path.isfile(info["in"]) and (info["out"] is None or os.path.realpath(info["out"]) != os.path.realpath(info["in"])):
+            in_before = open(info["in"], "rb").read()
         feeder = None
         if info.get("fifo_data") is not None:
             import threading
@@ -260,6 +269,8 @@ def run_vector(exe, reftool, fx, vec, idx, workroot):
             return ("crash:" + kind, "AddressSanitizer: " + kind, tail)
         ok = (rc == 0)
         wf = well_formed(vec)
+        if in_before is not None and (not os.path.isfile(info["in"]) or open(info["in"], "rb").read() != in_before):
+            return ("input-modified", "the input file %s was changed by the run (%d bytes before, %s after) (%s)" % (os.path.basename(info["in"]), len(in_before), os.path.getsize(info["in"]) if os.path.isfile(info["in"]) else "gone", vname), tail)
         if vec[1] in ("directory", "devnull", "fifo"):
             # what an operation on a non-regular input should yield is not documented: only (1) applies
             if (not ok) and not (so.strip() or se.strip()):
@@ -322,13 +333,167 @@ def run_vector(exe, reftool, fx, vec, idx, workroot):
         shutil.rmtree(rundir, ignore_errors=True)
 
 
+def c12_cli(tier):
+    """C12 at the command line (post pass of the C12 check): for every (file, key) class, `-v`, `-d -o OUT` and `-d` without -o are run on
+    private copies; the input must be byte-identical afterwards, -v must not create anything, -v and -d -o must agree on the exit status.
+    returns (coverage dict, violations)"""
+    exe, reftool = build_tools()
+    root = os.path.join("/dev/shm" if os.path.isdir("/dev/shm") else c.BUILD, "wencry-c12cli-%d" % os.getpid())
+    shutil.rmtree(root, ignore_errors=True)
+    os.makedirs(root)
+    viol, nruns, ncls = [], 0, 0
+    env = dict(os.environ)
+    env["ASAN_OPTIONS"] = "detect_leaks=0:new_delete_type_mismatch=0:alloc_dealloc_mismatch=0:exitcode=77:abort_on_error=0:allocator_may_return_null=1"
+    try:
+        fx = Fixture(os.path.join(root, "fx"), reftool)
+        valid = open(fx.valid, "rb").read()
+        tampered = open(fx.tampered, "rb").read()
+        files = [("valid", valid), ("tampered", tampered), ("garbage", bytes((i * 37 + 11) % 256 for i in range(100))), ("empty", b"")]
+        for L in ((9, 48, 127, 129) if tier != "thorough" else (1, 8, 9, 10, 30, 47, 48, 60, 127, 128, 129, 143, len(valid) - 1)):
+            files.append(("valid-cut-to-%d" % L, valid[:L]))
+        names = ["data.wenc", "backup.bin", "x.wenc.old", "noext"]
+        for (fname, content) in files:
+            for name in names:
+                for key in (KEYTXT, WRONG):
+                    ncls += 1
+                    st = {}
+                    for op in ("v", "d-o", "d"):
+                        wd = os.path.join(root, "w")
+                        shutil.rmtree(wd, ignore_errors=True)
+                        os.makedirs(wd)
+                        src = os.path.join(wd, name)
+                        open(src, "wb").write(content)
+                        args = [exe, "-v" if op == "v" else "-d", "-i", src, "-k", key] + (["-o", os.path.join(wd, "result.out")] if op == "d-o" else [])
+                        try:
+                            r = subprocess.run(args, stdout=subprocess.DEVNULL, stderr=subprocess.DEVNULL, env=env, cwd=wd, timeout=120, stdin=subprocess.DEVNULL)
+                            st[op] = r.returncode
+                        except subprocess.TimeoutExpired:
+                            st[op] = "hang"
+                        nruns += 1
+                        what = "`%s -i %s -k %s%s` on a %s file" % ("-v" if op == "v" else "-d", name, "<right key>" if key == KEYTXT else "<wrong key>", " -o result.out" if op == "d-o" else "", fname)
+                        after = open(src, "rb").read() if os.path.isfile(src) else None
+                        if after != content:
+                            viol.append({"key": "input-modified:cli", "desc": what + " changed its input file (%d bytes before, %s after)" % (len(content), "gone" if after is None else "%d bytes" % len(after)),
+                                         "replay": {"c12_cli": [fname, name, op, key == KEYTXT]}})
+                        if op == "v" and sorted(os.listdir(wd)) != [name]:
+                            viol.append({"key": "verify-wrote-output:cli", "desc": what + " created " + ", ".join(x for x in sorted(os.listdir(wd)) if x != name), "replay": {"c12_cli": [fname, name, op, key == KEYTXT]}})
+                    if "hang" not in (st["v"], st["d-o"]) and (st["v"] == 0) != (st["d-o"] == 0):
+                        viol.append({"key": "verify-decrypt-disagree:cli", "desc": "on a %s file named %s with the %s key `-v` exits %s and `-d -o` exits %s" % (fname, name, "right" if key == KEYTXT else "wrong", st["v"], st["d-o"]),
+                                     "replay": {"c12_cli": [fname, name, "v/d-o", key == KEYTXT]}})
+    finally:
+        shutil.rmtree(root, ignore_errors=True)
+    seen, out = set(), []
+    for v in viol:  # a few per key
+        n = sum(1 for k in seen if k[0] == v["key"])
+        if n < 3:
+            seen.add((v["key"], v["desc"]))
+            out.append(v)
+    return {"cli_file_key_classes": ncls, "cli_runs": nruns,
+            "cli_note": "real binary: -v, -d -o OUT and -d (no -o) on private copies of {valid, tampered, garbage, empty, cut} files under names with and without .wenc, right and wrong key; "
+                        "input byte-identical afterwards, -v creates nothing, -v and -d -o agree"}, out
+
+
+def io_fault_pass(exe, reftool, fx, workroot, tier):
+    """Every point at which writing the output can start to fail (the environment's answer deviates once from the default "write
+    succeeds"): the real binary runs with RLIMIT_FSIZE = N for EVERY N below the size of the complete output (the write that crosses the
+    limit is cut short, every later one fails with EFBIG; SIGXFSZ ignored, as under a shell with `trap '' XFSZ`), plus an output device
+    that refuses every write (/dev/full). Oracle = C17's: the program terminates, does not crash, and exits 0 only if the requested result
+    is completely there. returns (coverage, violations)"""
+    if shutil.which("prlimit") is None:
+        return {"io_fault_pass": "prlimit not available: write-failure points not explored"}, []
+    env = dict(os.environ)
+    env["ASAN_OPTIONS"] = "detect_leaks=0:new_delete_type_mismatch=0:alloc_dealloc_mismatch=0:exitcode=77:abort_on_error=0:allocator_may_return_null=1"
+    root = os.path.join(workroot, "iofault")
+    os.makedirs(root, exist_ok=True)
+    big = os.path.join(root, "big.bin")
+    open(big, "wb").write(bytes((i * 7 + 3) % 256 for i in range(5000)))
+    kh = KEY.hex()
+    ops = [("e", fx.f, ["-e", "-i", "IN", "-o", "OUT", "-k", KEYTXT, "--cmode", "2", "--hmode", "1"]),
+           ("e", big, ["-e", "-i", "IN", "-o", "OUT", "-k", KEYTXT, "--cmode", "1", "--hmode", "0"]),
+           ("d", fx.valid, ["-d", "-i", "IN", "-o", "OUT", "-k", KEYTXT])]
+
+    def complete(kind, src, outp, wd):
+        if not os.path.isfile(outp):
+            return False
+        if kind == "e":
+            return subprocess.run([reftool, "check-enc", src, outp, kh, str(T), str(PROD_S)], stdout=subprocess.PIPE).returncode == 0
+        refout = os.path.join(wd, "ref.out")
+        r = subprocess.run([reftool, "decrypt", src, kh, str(T), str(PROD_S), refout], stdout=subprocess.PIPE)
+        return r.returncode == 0 and open(refout, "rb").read() == open(outp, "rb").read()
+
+    def run_one(job):
+        oi, kind, src, tmpl, limit, devfull = job
+        wd = os.path.join(root, "j%d_%s" % (oi, "full" if devfull else str(limit)))
+        os.makedirs(wd, exist_ok=True)
+        try:
+            inp = os.path.join(wd, os.path.basename(src))
+            shutil.copyfile(src, inp)
+            outp = "/dev/full" if devfull else os.path.join(wd, "out.bin")
+            argv = [inp if a == "IN" else outp if a == "OUT" else a for a in tmpl]
+            pre = [] if limit is None else ["sh", "-c", 'trap "" XFSZ; exec prlimit --fsize=%d:%d "$@"' % (limit, limit), "sh"]
+            what = "`%s` with %s" % (" ".join(tmpl), "the output on a device that refuses every write (/dev/full)" if devfull else "every write to a file beyond %s bytes failing (EFBIG)" % limit if limit is not None else "no fault")
+            try:
+                p = subprocess.run(pre + [exe] + argv, stdout=subprocess.PIPE, stderr=subprocess.PIPE, env=env, cwd=wd, timeout=45, stdin=subprocess.DEVNULL)
+            except subprocess.TimeoutExpired:
+                return (job, "hang:failed-write:" + kind, what + " did not terminate within 45 s")
+            rc, so, se = p.returncode, p.stdout.decode("utf-8", "replace"), p.stderr.decode("utf-8", "replace")
+            if rc < 0:
+                return (job, "crash:failed-write:" + kind, what + ": killed by signal %d" % -rc)
+            if rc == 77 or "AddressSanitizer" in se:
+                return (job, "crash:failed-write:" + kind, what + ": AddressSanitizer report")
+            done = (not devfull) and complete(kind, inp, outp, wd)
+            if rc == 0 and not done:
+                return (job, "exit0-after-failed-write:" + kind, what + " exits 0 although the result is not completely there (%s bytes written)" % (os.path.getsize(outp) if os.path.isfile(outp) else "no"))
+            if rc != 0 and not (so.strip() or se.strip()):
+                return (job, "silent-failure:failed-write", what + ": non-zero exit without any diagnostic")
+            return (job, None, "rc=%d complete=%s" % (rc, done))
+        finally:
+            shutil.rmtree(wd, ignore_errors=True)
+
+    # fault-free sizes (and the sanity check that the limit mechanism itself is harmless when it does not bite)
+    sizes = []
+    for oi, (kind, src, tmpl) in enumerate(ops):
+        wd = os.path.join(root, "probe%d" % oi)
+        os.makedirs(wd, exist_ok=True)
+        inp, outp = os.path.join(wd, os.path.basename(src)), os.path.join(wd, "out.bin")
+        shutil.copyfile(src, inp)
+        argv = [inp if a == "IN" else outp if a == "OUT" else a for a in tmpl]
+        p = subprocess.run(["sh", "-c", 'trap "" XFSZ; exec prlimit --fsize=1000000:1000000 "$@"', "sh", exe] + argv, stdout=subprocess.PIPE, stderr=subprocess.PIPE, env=env, cwd=wd, timeout=120, stdin=subprocess.DEVNULL)
+        if p.returncode != 0 or not complete(kind, inp, outp, wd):
+            shutil.rmtree(root, ignore_errors=True)
+            return {"io_fault_pass": "the fault-free run under a generous file-size limit did not succeed (rc %d): limits cannot be used here, write-failure points not explored" % p.returncode}, []
+        sizes.append(os.path.getsize(outp))
+        shutil.rmtree(wd, ignore_errors=True)
+    jobs = []
+    for oi, (kind, src, tmpl) in enumerate(ops):
+        full = sizes[oi]
+        if full <= 400 or tier == "thorough":
+            limits = list(range(0, full, 1 if full <= 400 else 16))
+        else:
+            limits = sorted(set([0, 1, 9, 10, 47, 48, 127, 128, 129, 4095, 4096, 4097, full - 17, full - 16, full - 1]))
+        for n in limits:
+            jobs.append((oi, kind, src, tmpl, n, False))
+        jobs.append((oi, kind, src, tmpl, None, True))
+    viol, outcomes, n = [], {}, 0
+    with cf.ThreadPoolExecutor(max_workers=c.NCPU) as ex:
+        for job, key, detail in ex.map(run_one, jobs):
+            n += 1
+            outcomes[key or "holds"] = outcomes.get(key or "holds", 0) + 1
+            if key and sum(1 for v in viol if v["key"] == key) < 3:
+                viol.append({"key": key, "desc": detail, "replay": {"io_fault": [job[0], job[4], job[5]]}})
+    shutil.rmtree(root, ignore_errors=True)
+    return {"io_fault_runs": n, "io_fault_outcomes": outcomes, "io_fault_complete_output_sizes": sizes,
+            "io_fault_note": "real binary under RLIMIT_FSIZE = N for every N below the complete output size (100-byte -e and -d: every byte; 5000-byte -e: boundary values, thorough every 16th) and with -o /dev/full; "
+                             "oracle: terminates, no crash, exit 0 only with the complete correct result, a diagnostic otherwise"}, viol
+
+
 def first_defect(vec):
     mode, inn, out, key, cm, hm, noecho, extra = vec
     if mode in ("none", "e+d", "v+h", "cluster-edv"):
         return "mode-" + mode
     if extra in ("unknown", "missingarg"):
         return "extra-" + extra
-    if key in ("len23", "nopad", "badsym", "len25", "onepad"):
+    if key in ("len23", "nopad", "badsym", "len25", "onepad", "hibyte"):
         return "key-" + key
     if out == "unwritable":
         return "out-unwritable"
@@ -395,7 +560,8 @@ def run(pid, tier, replay=None):
     rule = ("real binary (ASan build of main.cpp + libraries from the working tree); option vectors = product of value classes "
             "mode(%d) x input(%d) x output(%d) x key(%d) x cmode(%d) x hmode(%d) x no_echo(2) x extra(3): quick = every single deviation from 4 base lines + every pair of values of two dimensions completed from 2 base lines; "
             "thorough = the full product of all value classes; one evaluation = one process run; oracle: no signal/sanitizer report, exit 0 <=> effect confirmed by the reference "
-            "(file equals documented format / plaintext restored / tag valid), mandatory outcomes only where the documentation is unambiguous; distinct = distinct vectors") % tuple(len(d) for d in DIMS[:6])
+            "(file equals documented format / plaintext restored / tag valid), mandatory outcomes only where the documentation is unambiguous; distinct = distinct vectors; "
+            "plus the write-failure pass: the same binary with every write beyond N bytes failing, for every N below the complete output size, and with -o /dev/full") % tuple(len(d) for d in DIMS[:6])
     assumptions = ["interactive prompt mode (argc == 1) excluded, as the property says", "production chunk size (16 MiB): files are single-chunk; multi-chunk behaviour is C01/C02's subject",
                    "random key and IV seed are outputs: the printed key is parsed and the IV fields are read back from the written file", "reference = tools/src/reftool.cpp over ref/ref.hpp (libcrypto)"]
     try:
@@ -409,7 +575,20 @@ def run(pid, tier, replay=None):
     try:
         fx = Fixture(os.path.join(workroot, "fx"), reftool)
         if replay:
-            r = json.load(open(replay))["replay"]
+            rec = json.load(open(replay))
+            r = rec["replay"]
+            if "io_fault" in r:  # the write-failure pass is small and deterministic: re-run it twice as a whole, the recorded key must come back
+                found = []
+                for _ in range(2):
+                    _, fv = io_fault_pass(exe, reftool, fx, workroot, tier or "quick")
+                    found.append(sorted(v["key"] for v in fv if v["key"] == rec.get("key")))
+                print(json.dumps({"key": rec.get("key"), "verdict": "violation" if found[0] else "holds", "deterministic": bool(found[0]) == bool(found[1])}))
+                if bool(found[0]) != bool(found[1]):
+                    return 3
+                if found[0]:
+                    print("VIOLATION property=%s replay=%s" % (pid, replay))
+                    return 1
+                return 0
             vec = tuple(r["vector"])
             res = [run_vector(exe, reftool, fx, vec, k, workroot) for k in range(2)]
             print(json.dumps({"vector": dict(zip(DIMNAMES, vec)), "verdict": res[0][0] or "holds", "detail": res[0][1], "deterministic": res[0][0] == res[1][0]}))
@@ -455,6 +634,10 @@ def run(pid, tier, replay=None):
                 elif len(samples) < 8 and i % (len(vecs) // 8 + 1) == 0:
                     samples.append({"vector": dict(zip(DIMNAMES, v)), "argv": " ".join(tail)[:200], "result": detail})
         cov = {"evaluations": done, "distinct_nontrivial": len(set(vecs)), "rule": rule, "samples": samples, "outcomes": outcomes, "caps_hit": capped}
+        fcov, fviol = io_fault_pass(exe, reftool, fx, workroot, tier)
+        cov.update(fcov)
+        cov["evaluations"] += fcov.get("io_fault_runs", 0)
+        viol.extend(fviol)
         return c.finish(pid, tier, level, cov, viol, assumptions, t0, seed, exhaustive=not capped)
     finally:
         shutil.rmtree(workroot, ignore_errors=True)
